@@ -40,8 +40,11 @@ NodeChoices(i, n) ==
 Init == c = [n |-> -1]
 Next == /\ c.n = -1
         /\ \E n \in 0..MaxNodes :
-             \E G \in [1..n -> UNION {NodeChoices(i, n) : i \in 1..n}] :
-                /\ \A i \in 1..n : G[i] \in NodeChoices(i, n)
+             \* (nested choices, not a function set: TLC refuses to build sets of more than a million elements)
+             \E a \in (IF n >= 1 THEN NodeChoices(1, n) ELSE {0}), b \in (IF n >= 2 THEN NodeChoices(2, n) ELSE {0}),
+                d \in (IF n >= 3 THEN NodeChoices(3, n) ELSE {0}) :
+              LET G == CASE n = 0 -> <<>> [] n = 1 -> <<a>> [] n = 2 -> <<a, b>> [] OTHER -> <<a, b, d>> IN
+                /\ n <= 3
                 /\ (IF n = 0 \/ NShards = 1 THEN Shard = 0
                     ELSE (Len(Kids(G[1])) + (IF n > 1 THEN 3 * Len(Kids(G[2])) ELSE 0) + (IF n > 2 THEN 5 * Len(Kids(G[3])) ELSE 0)) % NShards = Shard)
                 /\ LET g == GraphDesc(G) IN
